@@ -59,6 +59,12 @@ func c20Make(c c20Case) (func() *c20Val, string) {
 			p := gen.RefV4ToLib(ref)
 			// typed values with list-typed fields attached through the exported constructors
 			p.UpdateOption(dhcpv4.OptParameterRequestList(dhcpv4.OptionRouter, dhcpv4.OptionSubnetMask, dhcpv4.OptionDomainName, dhcpv4.OptionBroadcastAddress))
+			if len(c.B)%2 == 1 {
+				// list arguments with repeated and unsorted elements: legal to construct, whatever a reader makes of them
+				p.UpdateOption(dhcpv4.OptParameterRequestList(dhcpv4.OptionRouter, dhcpv4.OptionRouter, dhcpv4.OptionSubnetMask, dhcpv4.OptionBootfileName, dhcpv4.OptionRouter))
+				p.UpdateOption(dhcpv4.OptClientArch(iana.Arch(7), iana.Arch(7), iana.Arch(0)))
+				p.UpdateOption(dhcpv4.OptDNS(net.IP{8, 8, 8, 8}, net.IP{8, 8, 8, 8}, net.IP{1, 1, 1, 1}))
+			}
 			return &c20Val{reflect.ValueOf(p), p.ToBytes}
 		}, "v4-built"
 	case 2:
@@ -76,6 +82,19 @@ func c20Make(c c20Case) (func() *c20Val, string) {
 		}
 		return func() *c20Val {
 			d := gen.ToLibMsg(t)
+			if m, ok := d.(*dhcpv6.Message); ok && len(c.B)%2 == 1 {
+				// constructor-built options whose list arguments hold repeated and unsorted elements (a decoder may
+				// drop duplicates; a constructor takes what it is given)
+				if m.GetOneOption(dhcpv6.OptionORO) == nil {
+					m.AddOption(dhcpv6.OptRequestedOption(dhcpv6.OptionDNSRecursiveNameServer, dhcpv6.OptionDNSRecursiveNameServer, dhcpv6.OptionDomainSearchList, dhcpv6.OptionBootfileURL, dhcpv6.OptionDNSRecursiveNameServer, dhcpv6.OptionBootfileParam))
+				}
+				if m.GetOneOption(dhcpv6.OptionClientArchType) == nil {
+					m.AddOption(dhcpv6.OptClientArchType(iana.Arch(7), iana.Arch(7), iana.Arch(0)))
+				}
+				if m.GetOneOption(dhcpv6.OptionDNSRecursiveNameServer) == nil {
+					m.AddOption(dhcpv6.OptDNS(net.ParseIP("2001:db8::53"), net.ParseIP("2001:db8::53"), net.ParseIP("2001:db8::1")))
+				}
+			}
 			return &c20Val{reflect.ValueOf(d), d.ToBytes}
 		}, "v6-built"
 	default:
